@@ -10,8 +10,10 @@
    - `Item::None` is not a constructed item (Table::insert accepts it and it prints as nothing);
    - Table::set_implicit(true) is covered (`im` in BI_table / BI_aot: it is what toml's DocumentFormatter calls on
      every non-empty table), provided the table still prints something below itself (`item_prints`);
+   - the multi-line layout the two `pretty` serializers give an array is covered (BV_array_ml: every element
+     set_prefix("\n    "), set_trailing("\n"), set_trailing_comma(true));
    - the other formatting switches (Table::set_dotted / set_position, InlineTable::set_dotted,
-     Array::set_trailing*, Decor setters, the *_formatted inserts) are not construction and are left out. *)
+     other uses of Array::set_trailing* and the Decor setters, the *_formatted inserts) are not construction and are left out. *)
 From TV Require Import Base.Prelude Base.Utf8 Base.Winnow Gen.Consts.
 From TV Require Import Model.Datetime Model.Numbers Model.Tree Model.Parse Model.Write.
 
@@ -149,6 +151,20 @@ Definition prefix_built (o : option raw) : Prop :=
 Definition suffix_built (o : option raw) : Prop := o = None \/ o = Some REmpty.
 Definition decor_built (d : decor) : Prop := prefix_built (d_prefix d) /\ suffix_built (d_suffix d).
 
+(* the multi-line layout of an array (toml_edit::ser::pretty::Pretty::visit_array_mut and toml's DocumentFormatter with
+   multiline_array, on arrays of two and more elements; Array::set_trailing / set_trailing_comma and
+   Decor::set_prefix on the elements):
+       for item in node.iter_mut() { item.decor_mut().set_prefix("\n    "); }
+       node.set_trailing("\n"); node.set_trailing_comma(true);
+   the only use of those three setters that is inside `Built` (BV_array_ml) *)
+Definition ML_PREFIX : bytes := [x0a; x20; x20; x20; x20].
+Definition ml_elem (v : value) : value :=
+  match v with
+  | VScalar s r d => VScalar s r (mkDecor (Some (RExplicit ML_PREFIX)) (d_suffix d))
+  | VArray vals tr c d sp => VArray vals tr c (mkDecor (Some (RExplicit ML_PREFIX)) (d_suffix d)) sp
+  | VInline items pre im dt d sp => VInline items pre im dt (mkDecor (Some (RExplicit ML_PREFIX)) (d_suffix d)) sp
+  end.
+
 Definition mk_inline_items (l : list (bytes * value)) : kvs :=
   map (fun kv => (key_new (fst kv), IValue (snd kv))) l.
 Definition mk_tbl_items (l : list (bytes * item)) : kvs :=
@@ -179,6 +195,8 @@ Section Built.
   | BV_scalar s d : PS s -> decor_built d -> BuiltValue (VScalar s None d)
   | BV_array es d : decor_built d -> Forall BuiltValue es ->
       BuiltValue (VArray (map IValue es) REmpty false d None)
+  | BV_array_ml es d : decor_built d -> Forall BuiltValue es ->
+      BuiltValue (VArray (map (fun e => IValue (ml_elem e)) es) (RExplicit [x0a]) true d None)
   | BV_inline l d : decor_built d -> NoDup (map fst l) -> Forall PK (map fst l) -> Forall BuiltValue (map snd l) ->
       BuiltValue (VInline (mk_inline_items l) REmpty false false d None).
 
